@@ -2133,7 +2133,7 @@ func modelRecvEcho(frameBytes []byte) string {
 /* ---------------------------------------------------------------- handoff (C15) */
 
 func runHandoff(c *Ctx) error {
-	c.Res.Rule = "traffic histories (message counts/sizes per direction, buffered and partial sends/reads), ExportCryptoState attempted at every step (boundary or not); sessions with traffic in ONE direction only (1-4 messages through every sending API) with export attempted on the sent-only and on the received-only end after each, judged by a property oracle from the protected frames the harness saw each end send and accept; import around the same connection (every buffer the harness passes to or gets from the library — the key given to SetSymmetricKey, the blob given to NewStreamWithCryptoState, the slice ExportCryptoState returned — is wiped and overwritten right after the call; every export must still carry the session key and the imported digests), chains of hand-offs on either end, further traffic with the untouched peer; plus every truncation and every single-byte corruption of one valid blob; distinct by op-sequence hash; non-trivial = export attempted after ≥1 frame in some direction"
+	c.Res.Rule = "traffic histories (message counts/sizes per direction, buffered and partial sends/reads), ExportCryptoState attempted at every step (boundary or not); sessions with traffic in ONE direction only (1-4 messages through every sending API) with export attempted on the sent-only and on the received-only end after each, judged by a property oracle from the protected frames the harness saw each end send and accept; import around the same connection (every buffer the harness passes to or gets from the library — the key given to SetSymmetricKey, the blob given to NewStreamWithCryptoState, the slice ExportCryptoState returned — is wiped and overwritten right after the call; every export must still carry the session key and the imported digests), chains of hand-offs on either end, further traffic with the untouched peer; plus every truncation and every single-byte corruption of one valid blob; export after a receive call consumed the leading frame(s) of a multi-frame message and then failed (unopenable frame / truncated frame / end of connection; StartMessageRead, after which the stream still holds the consumed frames): must be refused; distinct by op-sequence hash; non-trivial = export attempted after ≥1 frame in some direction"
 	var cases []Case
 	n := c.Pick(400, 6000)
 	for i := 0; i < n; i++ {
@@ -2146,6 +2146,10 @@ func runHandoff(c *Ctx) error {
 		cases = append(cases, handoffWrap(c, i))
 	}
 	cases = append(cases, handoffBlobMutations(c)...)
+	// export after an inbound message was abandoned half way (property oracle on the implementation only)
+	for i := 0; i < c.Pick(60, 600); i++ {
+		handoffAbortedRead(c, i)
+	}
 	return diffBatch(c, "stream", cases, nil)
 }
 
